@@ -109,9 +109,27 @@ def check_loop(ctx, w):
     ok = len(whiles) == 1
     # one iteration, over paths: position then opcode byte; an empty read leaves the loop with nothing recorded; otherwise the
     # operation is decoded, its operands parsed by the dispatch entry of that opcode, and recorded -- in this order
-    want = ['offset = stream.tell()', 'byte = stream.read(1)', 'op = ord(byte)',
-            "op_name = DW_OP_opcode2name.get(op, 'OP:0x%x' % op)", 'arg_parser = self._dispatch_table[op]', 'args = arg_parser(stream)',
-            'parsed.append(DWARFExprOp(op=op, op_name=op_name, args=args, offset=offset))']
+    def norm_body(stm):
+        """the statements of one decoded operation in a spelling-free form: the dispatch entry may or may not have a name, the
+        record may be built with positional or keyword fields, the fallback name may be formatted in any way"""
+        out = []
+        for x in stm:
+            if x.startswith('op_name = DW_OP_opcode2name.get(op, '):
+                out.append('op_name = DW_OP_opcode2name.get(op, <fmt>)')
+            elif x == 'arg_parser = self._dispatch_table[op]':
+                continue
+            elif x in ('args = arg_parser(stream)', 'args = self._dispatch_table[op](stream)'):
+                out.append('args = self._dispatch_table[op](stream)')
+            elif x.startswith('parsed.append(DWARFExprOp('):
+                c = ast.parse(str(x)).body[0].value.args[0]
+                flds = dict(zip(('op', 'op_name', 'args', 'offset'), [U(a) for a in c.args]))
+                flds.update((k.arg, U(k.value)) for k in c.keywords)
+                out.append('record ' + ','.join('%s=%s' % kv for kv in sorted(flds.items())))
+            else:
+                out.append(str(x))
+        return out
+    want = ['offset = stream.tell()', 'byte = stream.read(1)', 'op = ord(byte)', 'op_name = DW_OP_opcode2name.get(op, <fmt>)',
+            'args = self._dispatch_table[op](stream)', 'record args=args,offset=offset,op=op,op_name=op_name']
     seen = set()
     why = None
     for p in (paths.enum_paths(whiles[0].body) if ok else []):
@@ -124,10 +142,7 @@ def check_loop(ctx, w):
             good = stm == want[:2] and ev[-1] == ('end', 'break') and ev.index(('c', cs[0])) == 2
         elif cs == [expr.neg(empty)]:
             seen.add('op')
-            # the fallback name of an unknown opcode is a formatted text: any formatting of `op` is the same decision
-            nm = [x for x in stm if x.startswith('op_name = DW_OP_opcode2name.get(op, ')]
-            good = len(stm) == len(want) and len(nm) == 1 and [a for a in stm if a not in nm] == [b for b in want if not b.startswith('op_name =')] and \
-                stm.index(nm[0]) == 3 and ev[-1] == ('end', 'fall')
+            good = norm_body(stm) == want and ev[-1] == ('end', 'fall')
         else:
             good = False
         if not good:
